@@ -11,7 +11,7 @@ out=seeded/RESULTS.txt
 [ $# -eq 0 ] && : > $out
 for s in $seeds; do
   prop=$(python3 -c "import json;print(json.load(open('seeded/$s/meta.json'))['property'])")
-  git -C /repo apply seeded/$s/patch.diff || { echo "$s: patch does not apply" | tee -a $out; continue; }
+  git -C /repo apply "$PWD/seeded/$s/patch.diff" || { echo "$s: patch does not apply" | tee -a $out; continue; }
   start=$(date +%s)
   ./check $prop > /tmp/runseed-$s.log 2>&1
   rc=$?
